@@ -167,7 +167,7 @@ impl Settable<f32, E> for FMotor {
         if let Some(k) = self.h.reject.get() {
             return Err(Error::Other(k));
         }
-        self.h.log.borrow_mut().push(MotorEv::SetF(value.to_bits()));
+        self.h.log.borrow_mut().push(MotorEv::SetF(fbits(value)));
         Ok(())
     }
     fn get_settable_data_ref(&self) -> &SettableData<f32, E> {
